@@ -12,7 +12,7 @@
 (* The calls: every (op, key size, adlen, mlen) of a small window, genuine  *)
 (* packets and packets with one flipped bit in body or tag, short packets.  *)
 (***************************************************************************)
-EXTENDS TJMode, TJSiv, TJHash, TLC
+EXTENDS TJModeFn, TLC
 
 CONSTANTS MaxAd, MaxM, MaxH,
           Ops        \* which public operations this run explores
@@ -57,13 +57,6 @@ Step ==
 
 Next == Step
 Spec == Init /\ [][Next]_vars
-
-Functional(c) ==
-    CASE c.op = "aenc" -> [res |-> 0, out |-> AeadEnc(c.k, c.n, c.ad, c.x), wrote |-> TRUE]
-      [] c.op = "senc" -> [res |-> 0, out |-> SivEnc(c.k, c.n, c.ad, c.x), wrote |-> TRUE]
-      [] c.op = "hash" -> [res |-> 0, out |-> Hash(c.x), wrote |-> TRUE]
-      [] c.op = "adec" -> LET r == AeadDec(c.k, c.n, c.ad, c.x) IN [res |-> r.res, out |-> r.m, wrote |-> r.wrote]
-      [] c.op = "sdec" -> LET r == SivDec(c.k, c.n, c.ad, c.x) IN [res |-> r.res, out |-> r.m, wrote |-> r.wrote]
 
 ModeRefines == Done(q) => Verdict(q) = Functional(q.c)
 
